@@ -616,6 +616,11 @@ h("ki6_fast_loop_walks_the_window_ring", I + "/ki6_fast.rs", "inflate::verif_kan
   bounds="15 symbolic input bytes, 262 bytes of output room, fixed tables, window 8 that has wrapped (full, write head anywhere)",
   unwindset=[("inflate_fast_help_impl", None, 3)],
   assumptions=["inflate_table stubbed (fixed tables only)", "copy primitives -> contract stubs as in ki6_fast_loop_room; extend_from_window additionally records the ranges it is asked for"])
+h("ki6_fast_loop_match_from_a_wrapped_window", I + "/ki6_fast.rs", "inflate::verif_kani::ki6_fast", ["C04", "C02"], kernel="KI6", expect_s=200, timeout=1500, weight=3, mem_gb=20,
+  functions=["inflate::inflate_fast_help_impl::<NONE>: window ranges of a match whose source crosses the wrap point"],
+  bounds="concrete fixed-code stream (length 4 at distance 6, end of block), wrapped 8-byte window with position-naming bytes, write head anywhere (every split of the match across the end of the window buffer)",
+  unwindset=[("inflate_fast_help_impl", None, 3), ("extend_from_window_with_features", None, 10), ("ki6_fast::ki6_fast_loop_match_from_a_wrapped_window", None, 10)],
+  assumptions=["inflate_table stubbed", "extend_from_window -> byte loop with the primitive's semantics (KI2 decides the chunked primitive); copy_match -> contract stub (not reached: the source lies in the window)"])
 h("ki6_fast_loop_room", I + "/ki6_fast.rs", "inflate::verif_kani::ki6_fast", ["C02"], kernel="KI6", expect_s=300, timeout=2400, weight=3, mem_gb=20,
   functions=["inflate::inflate_fast_help_impl::<NONE> (one 'outer iteration)", "BitReader::refill", "BitReader::return_unused_bytes", "Writer::push",
              "inffixed_tbl::{LENFIX,DISTFIX}"],
@@ -728,7 +733,7 @@ QUICK = {
     "C03": ["ki5b_fixed_part", "ki5c_codelens_16_exact", "ki5c_codelens_17_exact", "ki5c_codelens_18_exact", "ki5c_codelens_18_over", "ki5d_match_guard_dispatch", "ki5d_match_guard_friends", "ki5a_head_w1_n2", "ki5a_head_w3_n2", "ki5a_head_w2_n2", "ki5a_dictid_n4", "ki5c_typedo_b3_i0", "ki5c_typedo_b7_i0", "ki5c_stored", "ki5c_table",
             "ki5c_lenlens_order", "ki5d_len_step", "ki5d_dist_step_friends", "ki5d_fixed_tables_are_rfc", "ki5e_check_zlib",
             "ki5e_length_gzip", "ki5b_hcrc"],
-    "C04": ["ki6_fast_loop_walks_the_window_ring", "ki5d_dist_long_code_dispatch", "ki1_bitreader_split", "ki5c_copyblock_resume", "ki5c_stored_trees", "ki5d_match_guard_dispatch", "ki5c_codelens_17_suspend", "ki5c_lenlens_order", "ki5b_extra", "ki5d_dist_step_friends",
+    "C04": ["ki6_fast_loop_match_from_a_wrapped_window", "ki5d_dist_long_code_dispatch", "ki1_bitreader_split", "ki5c_copyblock_resume", "ki5c_stored_trees", "ki5d_match_guard_dispatch", "ki5c_codelens_17_suspend", "ki5c_lenlens_order", "ki5b_extra", "ki5d_dist_step_friends",
             "ki7_inflate_copyblock", "ki3_window_extend_ring", "ki5c_typedo_b2_i0"],
     "C05": ["kd3_compress_block_general_two_symbols", "kd4_build_bl_tree_announces_every_used_length", "kd6_stored_pending_block_fits_len16", "kd4_gen_codes_n5", "kd4_build_tree_bl_k2", "kd4_build_tree_bl_k3", "kd4_build_tree_bl_single", "kd5_send_tree_n4", "kd5_send_tree_z11_n13", "kd1_bitwriter_pack", "kd1_emitters_one_step", "kd1_bitwriter_full_register", "kd10_prime",
             "kd2_static_encode_matches_rfc", "kd2_static_ltree_is_rfc_fixed_code", "kd7_zlib_wrapper", "kd8_quick_finish_n1",
